@@ -1,5 +1,7 @@
 package twig
 
+import "strconv"
+
 // C10: template inheritance is block substitution along the extends chain. Public API only.
 // A chain base <- l1 <- l2 (<- l3) with blocks a, b (b nested inside a in the base), c inside a for
 // loop and d inside an if in the base. Per level and block one of: absent / defined / defined empty /
@@ -150,4 +152,134 @@ func VH_C10_Nested() {
 	if err == nil {
 		symAssert(out == "["+outer+"]", "nested-block-substitution")
 	}
+}
+
+// ---- C10.wrapped: parent() inside other constructs ------------------------------------------------
+var vhC10WKinds = []string{"-", "D", "E", "P", "Papply", "Pspaceless", "Pif", "Pfor", "Pfilter", "Ptwice", "Pinclude", "Pnestedif", "Pset", "Pconcat", "Pcond", "Pdefault", "Plength"}
+
+func vhC10WBody(kind string, tag string) string {
+	switch kind {
+	case "D":
+		return tag + "{{ x }}"
+	case "E":
+		return ""
+	case "P":
+		return tag + "({{ parent() }})"
+	case "Papply":
+		return tag + "{% apply upper %}{{ parent() }}{% endapply %}"
+	case "Pspaceless":
+		return tag + "{% spaceless %}{{ parent() }}{% endspaceless %}"
+	case "Pif":
+		return tag + "{% if x != 'no' %}{{ parent() }}{% endif %}"
+	case "Pfor":
+		return tag + "{% for i in [1, 2] %}{{ parent() }};{% endfor %}"
+	case "Pfilter":
+		return tag + "{{ parent()|upper }}"
+	case "Ptwice":
+		return tag + "{{ parent() }}+{{ parent() }}"
+	case "Pinclude":
+		return tag + "{% include 'inc' %}{{ parent() }}{% include 'inc' %}"
+	case "Pset":
+		return tag + "{% set p = parent() %}[{{ p }}]"
+	case "Pconcat":
+		return tag + "{{ 'q' ~ parent() ~ 'r' }}"
+	case "Pcond":
+		return tag + "{{ x != 'no' ? parent() : 'n' }}{{ x == 'no' ? parent() : 'n' }}"
+	case "Pdefault":
+		return tag + "{{ parent()|default('d') }}"
+	case "Plength":
+		return tag + "{{ parent()|length }}"
+	case "Pnestedif":
+		return tag + "{% if true %}{% for i in [1] %}{% apply lower %}{{ parent() }}{% endapply %}{% endfor %}{% endif %}"
+	}
+	return ""
+}
+
+func vhLowerASCII(s string) string {
+	b := []byte(s)
+	for i, c := range b {
+		if c >= 'A' && c <= 'Z' {
+			b[i] = c + 32
+		}
+	}
+	return string(b)
+}
+
+func vhC10WRef(kinds []string, x string, level int) string {
+	for l := level; l >= 0; l-- {
+		tag := "a" + []string{"0", "1", "2", "3"}[l]
+		p := func() string { return vhC10WRef(kinds, x, l-1) }
+		switch kinds[l] {
+		case "D":
+			return tag + x
+		case "E":
+			return ""
+		case "P":
+			return tag + "(" + p() + ")"
+		case "Papply", "Pfilter":
+			return tag + vhUpperASCII(p())
+		case "Pspaceless", "Pif":
+			return tag + p()
+		case "Pfor":
+			return tag + p() + ";" + p() + ";"
+		case "Ptwice":
+			return tag + p() + "+" + p()
+		case "Pinclude":
+			return tag + "I" + p() + "I"
+		case "Pnestedif":
+			return tag + vhLowerASCII(p())
+		case "Pset":
+			return tag + "[" + p() + "]"
+		case "Pconcat":
+			return tag + "q" + p() + "r"
+		case "Pcond":
+			return tag + p() + "n"
+		case "Pdefault":
+			if r := p(); r != "" {
+				return tag + r
+			}
+			return tag + "d"
+		case "Plength":
+			return tag + strconv.Itoa(len(p()))
+		}
+	}
+	return ""
+}
+
+// VH_C10_Wrapped: one block along a chain of depth 1..D; at every level above the base the block is
+// absent, defined, empty, or calls parent() plainly or from inside apply, spaceless, if, for, a filter
+// chain, twice, between two includes, or three constructs deep. Oracle: the substitution function.
+func VH_C10_Wrapped() {
+	depth := 1 + symChoice(symParam("D", 2))
+	x := symStringIn(1, "aZ0")
+	kinds := []string{"D"}
+	tag := ""
+	e := New()
+	e.RegisterString("inc", "I")
+	e.RegisterString("l0", "<{% block a %}a0{{ x }}{% endblock %}>")
+	names := []string{"l0", "l1", "l2", "l3"}
+	for l := 1; l <= depth; l++ {
+		k := vhC10WKinds[symChoice(len(vhC10WKinds))]
+		kinds = append(kinds, k)
+		tag += k + "/"
+		src := "{% extends '" + names[l-1] + "' %}"
+		if k != "-" {
+			src += "{% block a %}" + vhC10WBody(k, "a"+[]string{"0", "1", "2", "3"}[l]) + "{% endblock %}"
+		}
+		if e.RegisterString(names[l], src) != nil {
+			symAssert(false, "template-parses")
+			return
+		}
+	}
+	symTag("kinds:" + tag)
+	out, err := e.Render(names[depth], map[string]interface{}{"x": x})
+	symCover("rendered")
+	symAssert(err == nil, "renders")
+	if err != nil {
+		return
+	}
+	symAssert(out == "<"+vhC10WRef(kinds, x, depth)+">", "block-substitution")
+	// a second render of the same template gives the same bytes (no state left in the chain)
+	out2, err2 := e.Render(names[depth], map[string]interface{}{"x": x})
+	symAssert(err2 == nil && out2 == out, "block-substitution-repeatable")
 }
